@@ -288,7 +288,12 @@ __CPROVER_assigns();
  * c4_shift * (seconds in 400 years), or exactly max() when that does not fit. */
 extern civil_lookup gz_mt;
 #define SATHI(v) ((v) > (Z)INT64_MAX ? (Z)INT64_MAX : (v))
-#define TL_FIELD(f, c4) (SATHI((Z)(f) + (Z)(c4) * P400))
+/* shifts above INT64_MAX / P400 cannot be multiplied out in int64: there every field is max() - which is the saturated sum for every
+ * non-negative instant (lemma_tl_sat), and the instants of the last recorded 400 years are non-negative (Load ends the table at or after 0) */
+#define TL_BIG(c4) ((Z)(c4) > (Z)INT64_MAX / P400)
+#define TL_FIELD(f, c4) (TL_BIG(c4) ? (Z)INT64_MAX : SATHI((Z)(f) + (Z)(c4) * P400))
+#define lemma_tl_sat_REQ(f, c4) (0 <= (Z)(f) && (Z)(f) <= (Z)INT64_MAX && TL_BIG(c4) && ZB(c4, 64))
+#define lemma_tl_sat_ENS(f, c4) (SATHI((Z)(f) + (Z)(c4) * P400) == (Z)INT64_MAX)
 civil_lookup TimeLocal(const TimeZoneInfo* self, fields cs, year_t c4_shift)
 __CPROVER_requires(1)
 MT_REQUIRES(self, cs)
